@@ -179,3 +179,25 @@ def age_tag_pools(k):
         o._next = k
         n += 1
   return n
+
+
+class LivelockCut(BaseException):
+  """Raised by cpu_watchdog inside whatever greenlet is spinning (not an Exception: the code under test's
+  `except Exception` handlers do not swallow it)."""
+
+
+def cpu_watchdog(seconds=20, max_cuts=3):
+  """Cut a livelock of the code under test: after `seconds` of CPU time of this (forked) case a LivelockCut is
+  raised in the running greenlet; the driver then carries on and the history recorded is judged as it stands.
+  Returns a list that collects one entry per cut."""
+  import signal
+  cuts = []
+
+  def handler(signum, frame):
+    cuts.append(frame.f_code.co_filename + ':' + str(frame.f_lineno))
+    if len(cuts) < max_cuts:
+      signal.setitimer(signal.ITIMER_VIRTUAL, seconds)
+    raise LivelockCut('CPU-time watchdog: %s' % cuts[-1])
+  signal.signal(signal.SIGVTALRM, handler)
+  signal.setitimer(signal.ITIMER_VIRTUAL, seconds)
+  return cuts
